@@ -969,7 +969,14 @@ def check(fx, rep, tier):
         check_progress(rep, crate, cfg)
         check_entry(rep, crate, cfg)
         check_conservation(rep, crate, cfg)
-        check_name_endings(rep, crate, cfg)
+        # R13.5 (names end alphanumeric) is implied by the exact verdict of R13.7 whenever the interpretation covers all scanners; the pattern rule
+        # stays as the fallback for a scanner the interpreter cannot model
+        interp = [_scan(crate, p_) for p_ in SCANNERS]
+        if all(r_ is not None and r_[2] is None for r_ in interp):
+            rep.ok('R13.5', 'name-scanners|subsumed-by-R13.7|%s' % cfg, 'zlink-core/src/idl/parse/mod.rs',
+                   'all name scanners are interpreted exactly against the lexical rules (R13.7): a name ending in a separator would be an `unsound` verdict there', nontrivial=False)
+        else:
+            check_name_endings(rep, crate, cfg)
         nsc += check_scanners(rep, crate, cfg)
         check_lexical_helpers(rep, crate, cfg)
         if cfg == 'full':
